@@ -95,3 +95,573 @@ Proof.
   - destruct recs; [congruence|reflexivity].
   - reflexivity.
 Qed.
+
+(* ================= the window invariant and the clauses that compare records with the window sets ================= *)
+(* ---------- union / inter ---------- *)
+Lemma In_union x l2 : forall l1, In x (union l1 l2) <-> In x l1 \/ In x l2.
+Proof.
+  unfold union. induction l2 as [|a r IH]; intros l1; cbn [fold_left]; [cbn [In]; tauto|].
+  rewrite IH. destruct (amem a l1) eqn:E; cbn [In].
+  - apply amem_In in E. split; [tauto|]. intros [H|[H|H]]; auto. subst; auto.
+  - tauto.
+Qed.
+Lemma In_inter x l1 l2 : In x (inter l1 l2) <-> In x l1 /\ In x l2.
+Proof. unfold inter. rewrite filter_In, amem_In. tauto. Qed.
+
+(* ---------- windows only grow their "ever" sets and shrink their "always" sets ---------- *)
+Definition wle (w0 w : win) : Prop :=
+  w_id w0 = w_id w
+  /\ incl (w_everP w0) (w_everP w) /\ incl (w_everB w0) (w_everB w)
+  /\ incl (w_alwP w) (w_alwP w0) /\ incl (w_alwB w) (w_alwB w0).
+Lemma wle_refl w : wle w w.
+Proof. repeat split; apply incl_refl. Qed.
+Lemma wle_trans a b c : wle a b -> wle b c -> wle a c.
+Proof.
+  intros [I1 [A1 [A2 [A3 A4]]]] [I2 [B1 [B2 [B3 B4]]]].
+  split; [congruence|]. repeat split; eapply incl_tran; eassumption.
+Qed.
+Lemma wle_update A w : wle w (win_update A w).
+Proof.
+  unfold wle, win_update; cbn. split; [reflexivity|].
+  repeat split; intros x H; try (apply In_union; left; exact H); apply In_inter in H; tauto.
+Qed.
+
+(* the abstract sets lie between the "always" and the "ever" sets of the window *)
+Definition within (w : win) (A : abs) : Prop :=
+  incl (aP A) (w_everP w) /\ incl (aB A) (w_everB w) /\ incl (w_alwP w) (aP A) /\ incl (w_alwB w) (aB A).
+Lemma within_update A w : within (win_update A w) A.
+Proof.
+  unfold within, win_update; cbn.
+  repeat split; intros x H; try (apply In_union; right; exact H); apply In_inter in H; tauto.
+Qed.
+Lemma within_wle w0 w A : wle w0 w -> within w0 A -> within w A.
+Proof.
+  intros [_ [B1 [B2 [B3 B4]]]] [A1 [A2 [A3 A4]]].
+  repeat split; eapply incl_tran; eassumption.
+Qed.
+
+Lemma windows_mono l : forall A ws w, In w (fst (windows A ws l)) ->
+  (exists w0, In w0 ws /\ wle w0 w) \/ In (w_id w) (started_calls l).
+Proof.
+  induction l as [|a l IH]; intros A ws w; cbn [windows fst].
+  - intros H. left. exists w. split; [exact H|apply wle_refl].
+  - intros H. apply IH in H.
+    destruct H as [[w0 [Hin Hle]]|H].
+    2:{ right. destruct a; cbn [started_calls flat_map app]; auto. right. exact H. }
+    apply in_map_iff in Hin. destruct Hin as [w1 [E Hin]].
+    assert (Hle1 : wle w1 w).
+    { eapply wle_trans; [|exact Hle]. subst w0.
+      destruct (acts_on (w_id w1) a || existsb (acts_on (w_id w1)) l); [apply wle_update|apply wle_refl]. }
+    clear E Hle w0.
+    destruct a as [c p lk ann|c|e]; try (left; exists w1; split; assumption).
+    destruct (existsb (fun w2 => w_id w2 =? c) ws); [left; exists w1; split; assumption|].
+    apply in_app_or in Hin. destruct Hin as [Hin|[<-|[]]]; [left; exists w1; split; assumption|].
+    right. destruct Hle1 as [<- _]. cbn. left. reflexivity.
+Qed.
+
+(* a window that exists after the first action and whose call acts in it holds the sets of that moment *)
+Lemma windows_head_within a l A ws w :
+  In w (fst (windows A ws (a :: l))) -> acts_on (w_id w) a = true -> ~ In (w_id w) (started_calls l) ->
+  within w (abs_act A a).
+Proof.
+  cbn [windows fst]. intros H Hact Hns. apply windows_mono in H. destruct H as [[w0 [Hin Hle]]|H]; [|contradiction].
+  apply in_map_iff in Hin. destruct Hin as [w1 [E Hin]].
+  assert (Ei : w_id w1 = w_id w).
+  { destruct Hle as [<- _]. subst w0. destruct (acts_on (w_id w1) a || existsb (acts_on (w_id w1)) l); reflexivity. }
+  rewrite Ei, Hact in E. cbn [orb] in E. subst w0.
+  eapply within_wle; [exact Hle|].
+  replace (abs_act A a) with (match a with AStart _ p _ _ => abs_add p A | ARelease _ => A | AOther e => abs_step A e [] end)
+    by (destruct a; reflexivity).
+  apply within_update.
+Qed.
+
+(* ---------- steps of a call leave the base and the set of known calls alone ---------- *)
+Lemma call_steps_base l : Forall call_step_only l -> forall s,
+  base (srun_from s l) = base s
+  /\ forall c, find_call c (calls s) = None -> find_call c (calls (srun_from s l)) = None.
+Proof.
+  induction 1 as [|e r [He1 He2] Hr IH]; intros s; [split; auto|]. rewrite srun_from_cons.
+  destruct (IH (fst (sstep s e))) as [I1 I2]. split.
+  - rewrite I1. apply sstep_base_call; assumption.
+  - intros c Hc. apply I2, sstep_unknown; [exact Hc|intros; apply He1].
+Qed.
+
+Lemma Forall_app_l {A} (P : A -> Prop) l1 l2 : Forall P (l1 ++ l2) -> Forall P l1.
+Proof. intros H. apply Forall_forall. intros x Hx. eapply Forall_forall in H; [exact H|apply in_or_app; left; exact Hx]. Qed.
+
+Lemma until_park_steps_only cand s : Forall call_step_only cand -> Forall call_step_only (snd (until_park s cand)).
+Proof.
+  intros H. apply Forall_forall. intros e He. apply until_park_sub in He. eapply Forall_forall in H; eassumption.
+Qed.
+
+Lemma until_park_quiet_snd s e r : announces (snd (sstep s e)) = [] ->
+  snd (until_park s (e :: r)) = e :: snd (until_park (fst (sstep s e)) r).
+Proof.
+  intros H. cbn [until_park]. rewrite H. cbn [is_nil].
+  destruct (until_park (fst (sstep s e)) r); reflexivity.
+Qed.
+
+Definition is_read (c : N) (rd : sevent) : Prop := rd = SReadProviders c \/ rd = SReadBidders c.
+
+(* a read step inside the steps of one action: the action acts on that call, the base at the read is
+   the base after the action, and the call was known before a release *)
+Lemma act_read s a p1 rd p2 c :
+  snd (act_steps s a) = p1 ++ rd :: p2 -> is_read c rd ->
+  acts_on c a = true
+  /\ base (srun_from s p1) = base (fst (act_steps s a))
+  /\ (forall d, a = ARelease d -> find_call c (calls s) = None -> find_call c (calls (srun_from s p1)) = None).
+Proof.
+  intros E Hrd. destruct a as [d p lk ann|d|e]; cbn [act_steps] in *.
+  - assert (Q : announces (snd (sstep s (SAdd d p lk ann))) = []).
+    { cbn [sstep]. destruct (find_call d (calls s)); reflexivity. }
+    rewrite (until_park_quiet_snd _ _ _ Q) in E. rewrite (until_park_quiet _ _ _ Q).
+    set (s1 := fst (sstep s (SAdd d p lk ann))) in *.
+    pose proof (until_park_steps_only _ s1 (call_cands d)) as Hso.
+    pose proof (until_park_run [SReadProviders d; SAnnounce d; SReadBidders d; SFanout d] s1) as Hrun.
+    assert (Hsub : forall e, In e (snd (until_park s1 [SReadProviders d; SAnnounce d; SReadBidders d; SFanout d])) ->
+                   In e [SReadProviders d; SAnnounce d; SReadBidders d; SFanout d]) by (intros e; apply until_park_sub).
+    destruct (until_park s1 [SReadProviders d; SAnnounce d; SReadBidders d; SFanout d]) as [s' done]. cbn [fst snd] in *.
+    destruct p1 as [|e0 p1'].
+    { cbn in E. inversion E. destruct Hrd; congruence. }
+    cbn [app] in E. inversion E; subst e0. subst done.
+    assert (Hc : c = d).
+    { specialize (Hsub rd (in_elt _ _ _)). cbn [In] in Hsub.
+      destruct Hrd as [-> | ->]; destruct Hsub as [H|[H|[H|[H|[]]]]]; inversion H; reflexivity. }
+    split; [cbn; subst; apply N.eqb_refl|]. split; [|intros d0; discriminate].
+    rewrite srun_from_cons. fold s1.
+    destruct (call_steps_base _ (Forall_app_l _ _ _ Hso) s1) as [B1 _].
+    destruct (call_steps_base _ Hso s1) as [B2 _]. rewrite Hrun in B2. congruence.
+  - pose proof (until_park_steps_only _ s (release_cands d)) as Hso.
+    pose proof (until_park_run [SReadBidders d; SFanout d] s) as Hrun.
+    assert (Hsub : forall e, In e (snd (until_park s [SReadBidders d; SFanout d])) -> In e [SReadBidders d; SFanout d])
+      by (intros e; apply until_park_sub).
+    rewrite E in *.
+    assert (Hc : c = d).
+    { specialize (Hsub rd (in_elt _ _ _)). cbn [In] in Hsub.
+      destruct Hrd as [-> | ->]; destruct Hsub as [H|[H|[]]]; inversion H; reflexivity. }
+    destruct (call_steps_base _ (Forall_app_l _ _ _ Hso) s) as [B1 U1].
+    destruct (call_steps_base _ Hso s) as [B2 _]. rewrite Hrun in B2.
+    split; [cbn; subst; apply N.eqb_refl|]. split; [congruence|]. intros _ _. apply U1.
+  - cbn [snd] in E. destruct p1 as [|e0 [|e1 p1']]; cbn in E; inversion E. destruct Hrd; congruence.
+Qed.
+
+Definition at_stage_from (s : sstate) (l : list sevent) (c : N) (n : N) : Prop :=
+  exists k0, find_call c (calls (srun_from s l)) = Some k0 /\ k_pc k0 = n.
+
+Lemma app_split {A} (x : A) : forall l1 l2 pre post, l1 ++ l2 = pre ++ x :: post ->
+  (exists p2, l1 = pre ++ x :: p2 /\ post = p2 ++ l2) \/ (exists pre2, pre = l1 ++ pre2 /\ l2 = pre2 ++ x :: post).
+Proof.
+  induction l1 as [|a l1 IH]; intros l2 pre post E.
+  - right. exists pre. auto.
+  - destruct pre as [|b pre].
+    + cbn in E. inversion E; subst. left. exists l1. auto.
+    + cbn in E. inversion E; subst. destruct (IH _ _ _ H1) as [[p2 [E1 E2]]|[pre2 [E1 E2]]].
+      * left. exists p2. subst. auto.
+      * right. exists pre2. subst. auto.
+Qed.
+
+(* THE WINDOW INVARIANT: at every effective read step of a call (the one that takes a snapshot), the
+   base state is abstracted by sets that lie between the "always" and the "ever" sets of the window the
+   checker computes for that call from the schedule alone. *)
+Lemma window_invariant_from l : forall s A ws,
+  wf (base s) -> R (base s) A -> NoDup (started_calls l) -> Forall plain_other l ->
+  (forall c, In c (started_calls l) -> find_call c (calls s) = None) ->
+  forall w, In w (fst (windows A ws l)) ->
+  forall pre rd post n, compile s l = pre ++ rd :: post -> is_read (w_id w) rd -> at_stage_from s pre (w_id w) n ->
+  exists A0, R (base (srun_from s pre)) A0 /\ within w A0.
+Proof.
+  induction l as [|a l IH]; intros s A ws Hwf HR Hn Hp Hf w Hw pre rd post n E Hrd Hst.
+  { destruct pre; discriminate. }
+  inversion Hp as [|? ? Hpa Hpl]; subst.
+  assert (Hfa : forall c p lk ann, a = AStart c p lk ann -> find_call c (calls s) = None).
+  { intros c p lk ann ->. apply Hf. cbn. left; reflexivity. }
+  destruct (act_R s A a Hwf HR Hpa Hfa) as [W [Rr U]].
+  cbn [compile] in E. apply app_split in E. destruct E as [[p2 [E1 E2]]|[pre2 [E1 E2]]].
+  - destruct (act_read s a pre rd p2 (w_id w) E1 Hrd) as [Hact [Hb Hk]].
+    exists (abs_act A a). split; [rewrite Hb; exact Rr|].
+    apply windows_head_within with (l := l) (ws := ws); [exact Hw|exact Hact|].
+    intros Hin. destruct a as [d p lk ann|d|e]; cbn [acts_on] in Hact; try discriminate.
+    + apply N.eqb_eq in Hact. subst d. cbn in Hn. inversion Hn; contradiction.
+    + destruct Hst as [k0 [Hk0 _]]. rewrite (Hk d eq_refl) in Hk0; [discriminate|]. apply Hf. cbn. exact Hin.
+  - subst pre. unfold at_stage_from in Hst. rewrite srun_from_app, act_steps_run in Hst |- *.
+    cbn [windows fst] in Hw.
+    eapply IH; try eassumption.
+    + destruct a; cbn [started_calls flat_map app] in Hn |- *; auto. inversion Hn; assumption.
+    + intros c Hc. apply U.
+      * apply Hf. destruct a; cbn [started_calls flat_map app]; auto. right; exact Hc.
+      * intros [p [lk [ann ->]]]. cbn [started_calls flat_map app] in Hn. inversion Hn; subst. contradiction.
+Qed.
+
+Theorem window_invariant acts w pre rd post n :
+  NoDup (started_calls acts) -> Forall plain_other acts -> In w (fst (windows abs_init [] acts)) ->
+  compile sinit acts = pre ++ rd :: post -> is_read (w_id w) rd -> at_stage pre (w_id w) n ->
+  exists A0, R (base (srun pre)) A0 /\ within w A0.
+Proof.
+  intros Hn Hp Hw E Hrd Hst.
+  eapply (window_invariant_from acts sinit abs_init []); try eassumption.
+  - apply wf_init.
+  - repeat split.
+  - reflexivity.
+Qed.
+
+(* non-vacuity: in the directed schedule the provider call 3 reads its bidder snapshot inside a release
+   action, and the invariant's conclusion holds with the sets of that moment *)
+Example window_invariant_applies :
+  exists w pre post, In w (fst (windows abs_init [] (directed_schedule 2)))
+    /\ compile sinit (directed_schedule 2) = pre ++ SReadBidders (w_id w) :: post
+    /\ at_stage pre (w_id w) 2 /\ w_everB w <> [] /\ w_alwB w <> [].
+Proof.
+  eexists (nth 3 (fst (windows abs_init [] (directed_schedule 2))) (mkWin 0 exP1 [] [] [] [] [] [])).
+  exists (firstn 14 (compile sinit (directed_schedule 2))), (skipn 15 (compile sinit (directed_schedule 2))).
+  split; [vm_compute; tauto|]. split; [vm_compute; reflexivity|].
+  split; [eexists; split; vm_compute; reflexivity|]. split; vm_compute; discriminate.
+Qed.
+
+(* ---------- what every announcer call of a call looks like, in terms of its window ---------- *)
+Lemma get_peers_provider s : get_peers ROLE_PROVIDER s = providers s.
+Proof. reflexivity. Qed.
+Lemma get_peers_bidder s : get_peers ROLE_BIDDER s = bidders s.
+Proof. reflexivity. Qed.
+
+Definition announce_fact (w : win) (t : peer) (recs : list record) : Prop :=
+  (t = w_peer w /\ recs <> [] /\
+   forall a u, In (a, u) recs ->
+     a <> p_addr (w_peer w) /\ tbl_get (w_lk w) (mkPeer a ROLE_PROVIDER) = Some u /\ In a (w_everP w))
+  \/
+  (p_role (w_peer w) = ROLE_PROVIDER /\ exists u, tbl_get (w_lk w) (w_peer w) = Some u
+     /\ recs = [(p_addr (w_peer w), u)] /\ p_role t = ROLE_BIDDER /\ In (p_addr t) (w_everB w)).
+
+Lemma overlap_announce_facts acts w t recs :
+  NoDup (started_calls acts) -> Forall plain_other acts -> In w (fst (windows abs_init [] acts)) ->
+  In (t, recs) (announces (call_effects (w_id w) (compile sinit acts))) -> announce_fact w t recs.
+Proof.
+  intros Hn Hp Hw Hm. apply In_announces in Hm. apply step_sound in Hm.
+  destruct Hm as [p [lk [ann [l1 [l2 [E Hcases]]]]]].
+  assert (Hs : In (SAdd (w_id w) p lk ann) (compile sinit acts)) by (rewrite E; apply in_elt).
+  apply compile_sadd in Hs.
+  destruct (windows_from acts abs_init [] w Hw) as [[w0 [[] _]]|Hf].
+  destruct (start_unique acts Hn _ _ _ _ _ _ _ Hs Hf) as [Ep [El _]]. subst p lk.
+  destruct Hcases as [[Ht [Hne Hrec]]|[Hrole [u [Hlk [Hr [pre [post [E2 [Hst Hb]]]]]]]]].
+  - left. split; [exact Ht|]. split; [exact Hne|]. intros a u Hin.
+    destruct (Hrec a u Hin) as [Ha [Hl [pre [post [E2 [Hst Hi]]]]]]. split; [exact Ha|]. split; [exact Hl|].
+    destruct (window_invariant acts w pre _ post 0 Hn Hp Hw E2 (or_introl eq_refl) Hst) as [A0 [[RP _] [WP _]]].
+    apply WP. rewrite RP. rewrite get_peers_provider in Hi. apply (in_map p_addr) in Hi. exact Hi.
+  - right. split; [exact Hrole|]. exists u. split; [exact Hlk|]. split; [exact Hr|].
+    destruct (window_invariant acts w pre _ post 2 Hn Hp Hw E2 (or_intror eq_refl) Hst) as [A0 [[_ [RB _]] [_ [WB _]]]].
+    split.
+    + destruct (wf_srun pre) as [_ HB]. apply HB. exact Hb.
+    + apply WB. rewrite RB. rewrite get_peers_bidder in Hb. apply (in_map p_addr) in Hb. exact Hb.
+Qed.
+
+Lemma flag_In b s k : In k (flag b s) -> b = true /\ k = s.
+Proof. destruct b; cbn; [intros [H|[]]; auto|intros []]. Qed.
+
+(* SOUNDNESS CLAUSES of the overlap checker: on every schedule the only clause a call of the step model
+   can raise is announce:missing; announce:self, announce:bidder and every disjunct of announce:extra
+   (foreign record, empty message, wrong fan-out message, unexpected PeerList) are silent. *)
+Theorem overlap_sound_clauses_accept_model acts w done :
+  NoDup (started_calls acts) -> Forall plain_other acts -> In w (fst (windows abs_init [] acts)) ->
+  forall k, In k (call_clauses w done (call_effects (w_id w) (compile sinit acts))) -> k = "announce:missing"%string.
+Proof.
+  intros Hn Hp Hw k Hin.
+  pose proof (fun t recs => overlap_announce_facts acts w t recs Hn Hp Hw) as F.
+  destruct (overlap_wires_accept_model acts w Hn Hw) as [W1 _]. cbv zeta in W1.
+  set (eff := call_effects (w_id w) (compile sinit acts)) in *.
+  assert (G : forall r, In r (flat_map snd (filter (fun m => peer_eqb (fst m) (w_peer w)) (announces eff))) ->
+                fst r <> p_addr (w_peer w) /\ tbl_get (w_lk w) (mkPeer (fst r) ROLE_PROVIDER) = Some (snd r)
+                /\ In (fst r) (w_everP w)).
+  { intros [a u] Hr. apply in_flat_map in Hr. destruct Hr as [[t recs] [Hm Hr]]. cbn [snd fst] in *.
+    apply filter_In in Hm. destruct Hm as [Hm Ht]. cbn [fst] in Ht. apply peer_eqb_eq in Ht. subst t.
+    destruct (F _ _ Hm) as [[_ [_ Hrec]]|[Hrole [u' [_ [_ [Hb _]]]]]].
+    - apply Hrec. exact Hr.
+    - rewrite Hrole in Hb. discriminate. }
+  assert (BAD : forall r, In r (flat_map snd (filter (fun m => peer_eqb (fst m) (w_peer w)) (announces eff))) ->
+      negb (fst r =? p_addr (w_peer w))
+      && negb (negb (fst r =? p_addr (w_peer w)) && amem (fst r) (w_everP w)
+               && match tbl_get (w_lk w) (mkPeer (fst r) ROLE_PROVIDER) with
+                  | Some u => bytes_eqb u (snd r) | None => false end) = false).
+  { intros r Hr. destruct (G r Hr) as [Ha [Hl He]].
+    rewrite Hl, bytes_eqb_refl, (proj2 (amem_In _ _) He), (proj2 (N.eqb_neq _ _) Ha). reflexivity. }
+  unfold call_clauses in Hin. cbv zeta in Hin.
+  apply in_app_or in Hin. destruct Hin as [Hin|Hin].
+  { exfalso. apply flag_In in Hin. destruct Hin as [C _]. apply existsb_exists in C. destruct C as [r [Hr C]].
+    destruct (G r Hr) as [Ha _]. apply N.eqb_eq in C. contradiction. }
+  apply in_app_or in Hin. destruct Hin as [Hin|Hin].
+  { exfalso. apply flag_In in Hin. destruct Hin as [C _]. apply existsb_exists in C. destruct C as [r [Hr _]].
+    apply filter_In in Hr. destruct Hr as [Hr C]. cbv beta in C. exact (eq_true_false_abs _ C (BAD r Hr)). }
+  apply in_app_or in Hin. destruct Hin as [Hin|Hin].
+  { exfalso. apply flag_In in Hin. destruct Hin as [C _].
+    rewrite W1 in C. cbn [is_nil negb] in C. rewrite orb_false_r in C.
+    apply orb_true_iff in C. destruct C as [C|C]; [apply orb_true_iff in C; destruct C as [C|C]|].
+    - apply existsb_exists in C. destruct C as [r [Hr _]].
+      apply filter_In in Hr. destruct Hr as [Hr C]. cbv beta in C. exact (eq_true_false_abs _ C (BAD r Hr)).
+    - apply existsb_exists in C. destruct C as [[t recs] [Hm C]]. cbn [snd] in C.
+      apply filter_In in Hm. destruct Hm as [Hm _].
+      destruct (F _ _ Hm) as [[_ [Hne _]]|[_ [u [_ [Hr _]]]]]; [destruct recs; [congruence|discriminate]|].
+      subst recs. discriminate.
+    - apply existsb_exists in C. destruct C as [[t recs] [Hm C]]. cbn [snd fst] in C.
+      apply filter_In in Hm. destruct Hm as [Hm Ht]. cbn [fst] in Ht.
+      destruct (F _ _ Hm) as [[Ht' _]|[Hrole [u [Hlk [Hr [Hb He]]]]]].
+      + subst t. rewrite peer_eqb_refl in Ht. discriminate.
+      + rewrite Hrole, Hlk in C. cbn [Z.eqb ROLE_PROVIDER Pos.eqb] in C. subst recs.
+        rewrite Hb, (proj2 (amem_In _ _) He) in C.
+        rewrite (ms_eqb_refl record_eqb record_eqb_refl) in C. discriminate. }
+  apply flag_In in Hin. tauto.
+Qed.
+
+(* non-vacuity: the clause list it speaks about is really computed from messages (call 3 of the directed
+   schedule announces three times), and dropping one fan-out message raises exactly announce:missing *)
+Example overlap_sound_clauses_applies :
+  let w := nth 3 (fst (windows abs_init [] (directed_schedule 2))) (mkWin 0 exP1 [] [] [] [] [] []) in
+  let eff := call_effects (w_id w) (compile sinit (directed_schedule 2)) in
+  length (announces eff) = 3%nat /\ call_clauses w true eff = []
+  /\ call_clauses w true (firstn 2 eff) = ["announce:missing"%string].
+Proof. vm_compute. repeat split. Qed.
+
+(* ---------- completeness of a call's announcements under arbitrary interleaving ---------- *)
+Definition complete_call (l : list sevent) (c : N) (k : call) : Prop :=
+  (2 <= k_pc k -> forall a u, In (a, u) (records_for (k_peer k) (k_lk k) (k_provs k)) ->
+     exists recs, In (Announce (k_peer k) recs) (call_effects c l) /\ In (a, u) recs)
+  /\ (k_pc k = 3 -> exists u, tbl_get (k_lk k) (k_peer k) = Some u /\
+        exists pre post, l = pre ++ SReadBidders c :: post /\ at_stage pre c 2 /\
+          forall b, In b (get_peers ROLE_BIDDER (base (srun pre))) ->
+            In b (k_fan k) \/ In (Announce b [(p_addr (k_peer k), u)]) (call_effects c l))
+  /\ (k_pc k = 4 -> tbl_get (k_lk k) (k_peer k) = None).
+
+Lemma In_broadcast ann t recs : In (Announce t recs) (broadcast ann t recs).
+Proof. unfold broadcast. left. reflexivity. Qed.
+
+Theorem calls_complete l : forall c k, find_call c (calls (srun l)) = Some k -> complete_call l c k.
+Proof.
+  induction l as [|e l IH] using rev_ind; [intros c k H; discriminate|].
+  intros c k'. rewrite srun_snoc. intros Hk'.
+  destruct (find_call c (calls (srun l))) as [k|] eqn:Hk.
+  2:{ (* the call starts with this step *)
+    assert (Hpc : k_pc k' = 0).
+    { destruct e as [d p lk ann|d|d|d|d|e0];
+        try (rewrite sstep_unknown in Hk'; [discriminate|exact Hk|intros; discriminate]).
+      destruct (N.eq_dec d c) as [->|Hd].
+      - cbn [sstep] in Hk'. rewrite Hk in Hk'. cbn [fst calls find_call] in Hk'. rewrite N.eqb_refl in Hk'.
+        inversion Hk'. reflexivity.
+      - rewrite sstep_unknown in Hk'; [discriminate|exact Hk|]. intros p0 lk0 ann0 H. inversion H. congruence. }
+    unfold complete_call. rewrite Hpc. repeat split; intros; try lia; discriminate. }
+  destruct (IH c k Hk) as [C1 [C2 C3]]. clear IH.
+  destruct (call_step (srun l) e c k Hk) as [k1 [Hk1 [[Sp [Sl Sa]] Hcases]]].
+  rewrite Hk' in Hk1. inversion Hk1; subst k1. clear Hk1.
+  assert (Keep : forall x, In x (call_effects c l) -> In x (call_effects c (l ++ [e])))
+    by (intros x Hx; rewrite call_effects_snoc; apply in_or_app; left; exact Hx).
+  assert (Now : is_call c e = true -> forall x, In x (snd (sstep (srun l) e)) -> In x (call_effects c (l ++ [e])))
+    by (intros Hc x Hx; rewrite call_effects_snoc, Hc; apply in_or_app; right; exact Hx).
+  assert (C2' : k_pc k = 3 -> k_pc k' = 3 -> incl (k_fan k) (k_fan k') -> exists u, tbl_get (k_lk k') (k_peer k') = Some u /\
+        exists pre post, l ++ [e] = pre ++ SReadBidders c :: post /\ at_stage pre c 2 /\
+          forall b, In b (get_peers ROLE_BIDDER (base (srun pre))) ->
+            In b (k_fan k') \/ In (Announce b [(p_addr (k_peer k'), u)]) (call_effects c (l ++ [e]))).
+  { intros P3 _ Hincl. destruct (C2 P3) as [u [Hu [pre [post [E [Hst Hb]]]]]]. exists u. rewrite Sp, Sl. split; [exact Hu|].
+    exists pre, (post ++ [e]). split; [rewrite E, <- app_assoc; reflexivity|]. split; [exact Hst|].
+    intros b Hin. destruct (Hb b Hin) as [H|H]; [left; apply Hincl, H|right; apply Keep, H]. }
+  destruct Hcases as [[-> _]|[[-> [P0 [P1 Hpr]]]|[[-> [P0 [P1 [Hpr Heff]]]]|[[-> [P0 [Hrole [Hpr Hb]]]]|[-> [P0 [P1 [Hpr [b0 [rest [u' [Ef [Ef' [Elk Heff]]]]]]]]]]]]]].
+  - split; [|split; [|exact C3]].
+    + intros H2 a u Hin. destruct (C1 H2 a u Hin) as [recs [H1 H3]]. exists recs. split; [apply Keep, H1|exact H3].
+    + intros P3. apply C2'; [exact P3|exact P3|apply incl_refl].
+  - unfold complete_call. rewrite P1. repeat split; intros; try lia; discriminate.
+  - split; [|split; intros; lia]. intros _ a u Hin. rewrite Sp, Sl, Hpr in Hin. rewrite Sp.
+    destruct (records_for (k_peer k) (k_lk k) (k_provs k)) as [|r0 rs] eqn:Er; [destruct Hin|].
+    exists (r0 :: rs). split; [|exact Hin]. apply Now; [unfold is_call; cbn; apply N.eqb_refl|].
+    rewrite Heff. apply In_broadcast.
+  - split.
+    { intros _ a u Hin. rewrite Sp, Sl, Hpr in Hin. destruct (C1 ltac:(lia) a u Hin) as [recs [H1 H3]].
+      exists recs. rewrite Sp. split; [apply Keep, H1|exact H3]. }
+    destruct Hb as [[u [Elk [P3 Hf]]]|[Elk P4]].
+    + split; [|intros; lia]. intros _. exists u. rewrite Sp, Sl. split; [exact Elk|].
+      exists l, []. split; [reflexivity|]. split; [exists k; split; [exact Hk|exact P0]|].
+      intros b Hin. left. rewrite Hf. exact Hin.
+    + split; [intros; lia|]. intros _. rewrite Sp, Sl. exact Elk.
+  - split; [|split; [|intros; lia]].
+    { intros _ a u Hin. rewrite Sp, Sl, Hpr in Hin. destruct (C1 ltac:(lia) a u Hin) as [recs [H1 H3]].
+      exists recs. rewrite Sp. split; [apply Keep, H1|exact H3]. }
+    intros _. destruct (C2 P0) as [u [Hu [pre [post [E [Hst Hb]]]]]]. exists u. rewrite Sp, Sl. split; [exact Hu|].
+    exists pre, (post ++ [SFanout c]). split; [rewrite E, <- app_assoc; reflexivity|]. split; [exact Hst|].
+    intros b Hin. destruct (Hb b Hin) as [H|H]; [|right; apply Keep, H].
+    rewrite Ef in H. destruct H as [H|H]; [|left; rewrite Ef'; exact H].
+    right. subst b0. apply Now; [unfold is_call; cbn; apply N.eqb_refl|]. rewrite Heff.
+    assert (u' = u) by congruence. subst u'. apply In_broadcast.
+Qed.
+
+Lemma In_announces_rev t recs eff : In (Announce t recs) eff -> In (t, recs) (announces eff).
+Proof. intros H. unfold announces. apply in_flat_map. exists (Announce t recs). split; [exact H|left; reflexivity]. Qed.
+
+Lemma done_stage k : call_done k = true ->
+  2 <= k_pc k /\ (p_role (k_peer k) = ROLE_PROVIDER -> k_pc k = 4 \/ (k_pc k = 3 /\ k_fan k = [])).
+Proof.
+  unfold call_done. intros H. apply orb_true_iff in H. destruct H as [H|H]; [apply orb_true_iff in H; destruct H as [H|H]|].
+  - apply N.eqb_eq in H. split; [lia|auto].
+  - apply andb_true_iff in H. destruct H as [H1 H2]. apply N.eqb_eq in H1. split; [lia|]. intros _. right. split; [exact H1|].
+    destruct (k_fan k); [reflexivity|discriminate].
+  - apply andb_true_iff in H. destruct H as [H1 H2]. apply N.eqb_eq in H1. split; [lia|]. intros Hr. rewrite Hr in H2. discriminate.
+Qed.
+
+(* ALL CLAUSES OF ONE CALL: a call of the step model that has run to its end raises no clause at all
+   against its window (announce:missing included: nothing of the "always" sets is lost), on every schedule *)
+Theorem overlap_call_clauses_accept_model acts w :
+  NoDup (started_calls acts) -> Forall plain_other acts -> In w (fst (windows abs_init [] acts)) ->
+  call_completed (compile sinit acts) (w_id w) ->
+  call_clauses w true (call_effects (w_id w) (compile sinit acts)) = [].
+Proof.
+  intros Hn Hp Hw [k [Hk Hdone]].
+  destruct (call_clauses w true (call_effects (w_id w) (compile sinit acts))) as [|s rest] eqn:Ecl; [reflexivity|exfalso].
+  assert (Hin : In s (call_clauses w true (call_effects (w_id w) (compile sinit acts)))) by (rewrite Ecl; left; reflexivity).
+  clear Ecl rest.
+  assert (Hs := overlap_sound_clauses_accept_model acts w true Hn Hp Hw s Hin). clear Hs.
+  destruct (overlap_wires_accept_model acts w Hn Hw) as [_ W2]. cbv zeta in W2.
+  set (l := compile sinit acts) in *. set (eff := call_effects (w_id w) l) in *.
+  (* the call record is the window's call *)
+  destruct (calls_inv l _ k Hk) as [[l1 [l2 E1]] [Hpr _]].
+  assert (Hs : In (SAdd (w_id w) (k_peer k) (k_lk k) (k_ann k)) l) by (rewrite E1; apply in_elt).
+  apply compile_sadd in Hs.
+  destruct (windows_from acts abs_init [] w Hw) as [[w0 [[] _]]|Hf].
+  destruct (start_unique acts Hn _ _ _ _ _ _ _ Hs Hf) as [Ep [El _]].
+  destruct (done_stage k Hdone) as [H2 Hprov].
+  destruct (calls_complete l _ k Hk) as [C1 [C2 C3]]. rewrite Ep, El in *.
+  (* not a soundness clause *)
+  unfold call_clauses in Hin. cbv zeta in Hin.
+  apply in_app_or in Hin. destruct Hin as [Hin|Hin].
+  { pose proof (overlap_sound_clauses_accept_model acts w true Hn Hp Hw s) as S. fold l eff in S.
+    assert (s = "announce:missing"%string) by (apply S; unfold call_clauses; cbv zeta; apply in_or_app; left; exact Hin).
+    apply flag_In in Hin. destruct Hin as [_ Hq]. congruence. }
+  apply in_app_or in Hin. destruct Hin as [Hin|Hin].
+  { pose proof (overlap_sound_clauses_accept_model acts w true Hn Hp Hw s) as S. fold l eff in S.
+    assert (s = "announce:missing"%string)
+      by (apply S; unfold call_clauses; cbv zeta; apply in_or_app; right; apply in_or_app; left; exact Hin).
+    apply flag_In in Hin. destruct Hin as [_ Hq]. congruence. }
+  apply in_app_or in Hin. destruct Hin as [Hin|Hin].
+  { pose proof (overlap_sound_clauses_accept_model acts w true Hn Hp Hw s) as S. fold l eff in S.
+    assert (s = "announce:missing"%string)
+      by (apply S; unfold call_clauses; cbv zeta; apply in_or_app; right; apply in_or_app; right; apply in_or_app; left; exact Hin).
+    apply flag_In in Hin. destruct Hin as [_ Hq]. congruence. }
+  apply flag_In in Hin. destruct Hin as [C _]. cbn [andb] in C.
+  rewrite W2 in C. cbn [is_nil negb] in C. rewrite orb_false_r in C.
+  apply orb_true_iff in C. destruct C as [C|C].
+  - (* a provider of the "always" set whose record did not reach the newcomer *)
+    apply existsb_exists in C. destruct C as [a [Ha C]]. cbv beta in C. apply andb_true_iff in C. destruct C as [Cne C].
+    apply negb_true_iff, N.eqb_neq in Cne.
+    destruct (tbl_get (w_lk w) (mkPeer a ROLE_PROVIDER)) as [u|] eqn:Elk; [|discriminate].
+    apply negb_true_iff in C.
+    destruct (Hpr ltac:(lia)) as [pre [post [E2 [Hst Hsnap]]]].
+    destruct (window_invariant acts w pre _ post 0 Hn Hp Hw E2 (or_introl eq_refl) Hst) as [A0 [[RP _] [_ [_ [WA _]]]]].
+    apply WA in Ha. rewrite RP in Ha. apply in_map_iff in Ha. destruct Ha as [q [Eq Hq]].
+    assert (Hrole : p_role q = ROLE_PROVIDER) by (destruct (wf_srun pre) as [HP _]; apply HP; exact Hq).
+    assert (Hrec : In (a, u) (records_for (w_peer w) (w_lk w) (k_provs k))).
+    { apply In_records_for. exists q. rewrite Hsnap, get_peers_provider. repeat split; auto.
+      destruct q; cbn in *; subst. exact Elk. }
+    destruct (C1 H2 a u Hrec) as [recs [Hann Hau]].
+    apply In_announces_rev in Hann.
+    assert (Hgot : In (a, u) (flat_map snd (filter (fun m => peer_eqb (fst m) (w_peer w)) (announces eff)))).
+    { apply in_flat_map. exists (w_peer w, recs). split; [|exact Hau]. apply filter_In. split; [exact Hann|apply peer_eqb_refl]. }
+    apply rec_mem_In in Hgot. exact (eq_true_false_abs _ Hgot C).
+  - (* a bidder of the "always" set that did not get the newcomer's record *)
+    destruct (p_role (w_peer w) =? ROLE_PROVIDER)%Z eqn:Erole; [|discriminate]. apply Z.eqb_eq in Erole.
+    destruct (tbl_get (w_lk w) (w_peer w)) as [u|] eqn:Elk; [|discriminate].
+    apply existsb_exists in C. destruct C as [b [Hb C]]. cbv beta in C. apply negb_true_iff in C.
+    destruct (Hprov Erole) as [P4|[P3 Hfan]]; [specialize (C3 P4); congruence|].
+    destruct (C2 P3) as [u' [Hu' [pre [post [E2 [Hst Hall]]]]]]. assert (u' = u) by congruence. subst u'.
+    destruct (window_invariant acts w pre _ post 2 Hn Hp Hw E2 (or_intror eq_refl) Hst) as [A0 [[_ [RB _]] [_ [_ [_ WB]]]]].
+    apply WB in Hb. rewrite RB in Hb. apply in_map_iff in Hb. destruct Hb as [q [Eq Hq]].
+    assert (Hrole : p_role q = ROLE_BIDDER) by (destruct (wf_srun pre) as [_ HB]; apply HB; exact Hq).
+    assert (Eqq : q = mkPeer b ROLE_BIDDER) by (destruct q; cbn in *; subst; reflexivity). subst q.
+    destruct (Hall (mkPeer b ROLE_BIDDER)) as [H|H]; [rewrite get_peers_bidder; exact Hq|rewrite Hfan in H; destruct H|].
+    apply In_announces_rev in H.
+    assert (Hex : existsb (msg_eqb (mkPeer b ROLE_BIDDER, [(p_addr (w_peer w), u)]))
+                    (filter (fun m => negb (peer_eqb (fst m) (w_peer w))) (announces eff)) = true).
+    { apply existsb_exists. eexists. split; [|apply msg_eqb_refl]. apply filter_In. split; [exact H|].
+      cbn [fst]. apply negb_true_iff. destruct (peer_eqb (mkPeer b ROLE_BIDDER) (w_peer w)) eqn:Epe; [|reflexivity].
+      apply peer_eqb_eq in Epe. rewrite <- Epe in Erole. discriminate. }
+    exact (eq_true_false_abs _ Hex C).
+Qed.
+
+(* non-vacuity: the premise holds and the clause list is computed from three messages (see
+   overlap_sound_clauses_applies); a call that has not been released to its end does lose a bidder *)
+Example overlap_call_clauses_applies :
+  let acts := directed_schedule 2 in
+  call_completed (compile sinit acts) 3
+  /\ (let acts' := firstn 5 acts in
+      let w := nth 3 (fst (windows abs_init [] acts')) (mkWin 0 exP1 [] [] [] [] [] []) in
+      call_clauses w true (call_effects (w_id w) (compile sinit acts')) = ["announce:missing"%string]).
+Proof. split; [eexists; split; vm_compute; reflexivity|vm_compute; reflexivity]. Qed.
+
+(* ---------- the whole overlap checker on the step model ---------- *)
+Lemma find_model_call steps c : forall l, In c l ->
+  find (fun x : N * bool * list effect => fst (fst x) =? c) (map (model_call steps) l) = Some (model_call steps c).
+Proof.
+  induction l as [|d l IH]; [intros []|]. intros Hin. cbn [map find]. cbn [model_call fst].
+  destruct (N.eqb_spec d c) as [->|Hne]; [reflexivity|]. apply IH. destruct Hin; [contradiction|assumption].
+Qed.
+
+Lemma win_started acts w : In w (fst (windows abs_init [] acts)) -> In (w_id w) (started_calls acts).
+Proof.
+  intros Hw. destruct (windows_from acts abs_init [] w Hw) as [[w0 [[] _]]|Hf].
+  unfold started_calls. apply in_flat_map. eexists. split; [exact Hf|left; reflexivity].
+Qed.
+
+Lemma flat_map_nil_all {A B} (f : A -> list B) l : (forall a, In a l -> f a = []) -> flat_map f l = [].
+Proof.
+  induction l as [|a l IH]; intros H; [reflexivity|]. cbn [flat_map]. rewrite (H a (or_introl eq_refl)). cbn [app].
+  apply IH. intros b Hb. apply H. right. exact Hb.
+Qed.
+
+(* ONE THEOREM: on every schedule with distinct call ids, AddPeers / Disconnected as its atomic
+   events, and every started call released to its end, the whole mode-2 checker (all announce
+   clauses of every call, view:hang, view) is silent on the step model's own run *)
+Theorem checker_accepts_model_overlap i roles pr acts :
+  NoDup (started_calls acts) -> Forall plain_other acts ->
+  (forall c, In c (started_calls acts) -> call_completed (compile sinit acts) c) ->
+  case_violations (model_overlap_case i roles pr acts) = [].
+Proof.
+  intros Hn Hp Hdone. unfold case_violations, model_overlap_case. cbn [c_mode N.eqb Pos.eqb].
+  unfold overlap_clauses. cbn [c_acts c_calls obs probes].
+  pose proof (overlap_view_accepts_model pr acts Hn Hp) as V.
+  pose proof (fun w => overlap_call_clauses_accept_model acts w Hn Hp) as Cl.
+  pose proof (win_started acts) as St.
+  destruct (windows abs_init [] acts) as [ws A]. cbn [fst snd] in *.
+  rewrite V. cbn [negb flag]. rewrite app_nil_r.
+  replace (flat_map _ ws) with (@nil string); [reflexivity|]. symmetry.
+  apply flat_map_nil_all. intros w Hw.
+  rewrite (find_model_call _ _ _ (St w Hw)). cbn [model_call fst snd].
+  destruct (Hdone _ (St w Hw)) as [k [Hk Hd]]. unfold srun in Hk |- *. rewrite Hk, Hd. cbn [negb flag]. rewrite app_nil_r.
+  apply Cl; [exact Hw|]. exists k. split; [exact Hk|exact Hd].
+Qed.
+
+(* the premise "every started call is released to its end" is necessary: a call left parked is reported *)
+Example checker_overlap_needs_completion :
+  let acts := firstn 5 (directed_schedule 2) in
+  NoDup (started_calls acts) /\ In "view:hang"%string (case_violations (model_overlap_case 0 [] [] acts)).
+Proof. split; [vm_compute; repeat constructor; cbn; intuition discriminate|vm_compute; tauto]. Qed.
+(* and the theorem is not vacuous: the directed schedules satisfy its premises and contain messages *)
+Example checker_overlap_premises_directed :
+  let acts := directed_schedule 2 in
+  NoDup (started_calls acts) /\ Forall plain_other acts
+  /\ (forall c, In c (started_calls acts) -> call_completed (compile sinit acts) c)
+  /\ existsb (fun x => negb (is_nil (snd x))) (c_calls (model_overlap_case 0 [] [] acts)) = true.
+Proof.
+  split; [vm_compute; repeat constructor; cbn; intuition discriminate|].
+  split; [vm_compute; repeat constructor|]. split; [|vm_compute; reflexivity].
+  intros c Hc. vm_compute in Hc. destruct Hc as [<-|[<-|[<-|[<-|[]]]]]; eexists; split; vm_compute; reflexivity.
+Qed.
+
+(* the other two premises are necessary as well: with a call id used twice the checker keeps one window
+   for two calls; an atomic Gossip / ConnectDone pair adds a peer the schedule does not show *)
+Definition exReleases (n : nat) : list action := concat (repeat [ARelease 0; ARelease 1; ARelease 2] n).
+Example checker_overlap_needs_distinct_ids :
+  let acts := [AStart 0 exQ exLkAll []; AStart 0 exB1 exLkAll []; AStart 1 exP1 exLkAll []] ++ exReleases 4 in
+  Forall plain_other acts
+  /\ case_violations (model_overlap_case 0 [] [1; 2; 3; 4; 5] acts) = ["announce:missing"; "view"]%string.
+Proof. split; [vm_compute; repeat constructor|vm_compute; reflexivity]. Qed.
+Example checker_overlap_needs_plain_events :
+  let acts := [AStart 0 exQ exLkAll []; AOther (Gossip exQ true [(addr_bytes 9, bos "u9")]);
+               AOther (ConnectDone (bos "u9") (Some (mkPeer 9 ROLE_BIDDER))); AStart 1 exP1 exLkAll []] ++ exReleases 4 in
+  NoDup (started_calls acts)
+  /\ (forall c, In c (started_calls acts) -> call_completed (compile sinit acts) c)
+  /\ case_violations (model_overlap_case 0 [] [1; 2; 3; 4; 5] acts) = ["announce:extra"; "view"]%string.
+Proof.
+  split; [vm_compute; repeat constructor; cbn; intuition discriminate|]. split; [|vm_compute; reflexivity].
+  intros c Hc. vm_compute in Hc. destruct Hc as [<-|[<-|[]]]; eexists; split; vm_compute; reflexivity.
+Qed.
